@@ -151,3 +151,114 @@ contract('Environment.step', props=['C01', 'C15'], args={},
 literal('Environment._trace_event',
         "{'time': self.now, 'asset_id': event.asset_id, 'action': event.action.__name__, 'message': event.message, "
         "'event_type': event.event_type, 'status': event.status}", 'dict[any,any]')
+
+# --------------------------------------------------------------------------- C07: pause / unpause / cancel
+specfn('same_event_fields', ['e'],
+       'e.time == old(e.time) and e.cancelled == old(e.cancelled) and e.executed == old(e.executed) and '
+       'e.paused_at == old(e.paused_at)')
+
+contract('Environment.cancel_matching_events', props=['C07'], args={'asset_id': 'int?'},
+         ensures={
+             'none_is_noop': 'implies(isnone(asset_id), all(same_event_fields(e) for e in refs("Event")))',
+             'flags_exactly_matching':
+                 'implies(not isnone(asset_id), all(e.cancelled == (old(e.cancelled) or e.asset_id == asset_id) '
+                 '    for e in self._events) and all(e.cancelled == (old(e.cancelled) or e.asset_id == asset_id) '
+                 '    for e in self._paused_events))',
+             'others_untouched':
+                 'all(implies(e.asset_id != asset_id, same_event_fields(e)) for e in refs("Event"))',
+             'only_cancel_flag_changes':
+                 'all(e.time == old(e.time) and e.executed == old(e.executed) and e.paused_at == old(e.paused_at) '
+                 '    for e in refs("Event"))',
+             'queues_unchanged': 'seq(self._events) == old(seq(self._events)) and '
+                                 'seq(self._paused_events) == old(seq(self._paused_events))',
+         },
+         modifies=['*.cancelled'])
+loop('Environment.cancel_matching_events', 1, 'for event in events_to_cancel',
+     {'only_matching_flagged':
+          'all(e.cancelled == old(e.cancelled) or (e.cancelled and e.asset_id == asset_id) for e in refs("Event"))',
+      'done_prefix': 'all(events_to_cancel[j].cancelled for j in range(k))',
+      'covers_queued':
+          'all(implies(self._events[i].asset_id == asset_id, 0 <= comp_inv("events_to_cancel", i) and '
+          '            comp_inv("events_to_cancel", i) < len(events_to_cancel) and '
+          '            events_to_cancel[comp_inv("events_to_cancel", i)] is self._events[i]) '
+          '    for i in range(len(self._events)))',
+      'covers_paused':
+          'all(implies(self._paused_events[i].asset_id == asset_id, '
+          '            0 <= comp_inv("events_to_cancel", len(self._events) + i) and '
+          '            comp_inv("events_to_cancel", len(self._events) + i) < len(events_to_cancel) and '
+          '            events_to_cancel[comp_inv("events_to_cancel", len(self._events) + i)] is self._paused_events[i]) '
+          '    for i in range(len(self._paused_events)))',
+      'list_fixed': 'seq(events_to_cancel) == at_loop_entry(seq(events_to_cancel))'},
+     modifies=['*.cancelled'], index='k')
+
+# pause: ghost maps g_m (position in the old queue of each remaining event) and g_inv (its inverse)
+ghost_after('Environment.pause_matching_events', '<entry>', g_m='imap(lambda i: i)', g_inv='imap(lambda a: a)')
+ghost_after('Environment.pause_matching_events', 'self._events.remove(event)',
+            g_m='imap(lambda i: ite(i < witness("remove_index"), g_m[i], g_m[i + 1]))',
+            g_inv='imap(lambda a: ite(g_inv[a] > witness("remove_index"), g_inv[a] - 1, g_inv[a]))')
+
+specfn('sublist_by', ['E', 'O', 'm', 'inv'],
+       'all(0 <= m[i] and m[i] < len(O) and E[i] is O[m[i]] and inv[m[i]] == i for i in range(len(E))) and '
+       'all(m[i] < m[j] for i in range(len(E)) for j in range(i + 1, len(E)))')
+
+contract('Environment.pause_matching_events', props=['C07'], args={'asset_id': 'int?'},
+         ensures={
+             'none_is_noop':
+                 'implies(isnone(asset_id), all(same_event_fields(e) for e in refs("Event")) and '
+                 '        seq(self._events) == old(seq(self._events)) and '
+                 '        seq(self._paused_events) == old(seq(self._paused_events)))',
+             'withholds_all_matching':
+                 'implies(not isnone(asset_id), all(e.asset_id != asset_id for e in self._events))',
+             'others_stay_queued_in_order':
+                 'implies(not isnone(asset_id), '
+                 '  sublist_by(seq(self._events), old(seq(self._events)), g_m, g_inv) and '
+                 '  all(implies(old(self._events[a]).asset_id != asset_id, 0 <= g_inv[a] and g_inv[a] < len(self._events) '
+                 '              and self._events[g_inv[a]] is old(self._events[a])) for a in range(old(len(self._events)))))',
+             'matching_moved_to_paused':
+                 'implies(not isnone(asset_id), '
+                 '  all(implies(old(self._events[a]).asset_id == asset_id, '
+                 '              0 <= comp_inv("events_to_pause", a) and '
+                 '              old(len(self._paused_events)) + comp_inv("events_to_pause", a) < len(self._paused_events) and '
+                 '              self._paused_events[old(len(self._paused_events)) + comp_inv("events_to_pause", a)] '
+                 '                  is old(self._events[a]) and '
+                 '              old(self._events[a]).paused_at == self._now) for a in range(old(len(self._events)))))',
+             'paused_before_stay_paused':
+                 'len(self._paused_events) >= old(len(self._paused_events)) and '
+                 'all(self._paused_events[j] is old(self._paused_events[j]) for j in range(old(len(self._paused_events))))',
+             'nothing_else_paused':
+                 'implies(not isnone(asset_id), '
+                 '  all(self._paused_events[j].asset_id == asset_id and '
+                 '      0 <= comp_pos("events_to_pause", j - old(len(self._paused_events))) and '
+                 '      comp_pos("events_to_pause", j - old(len(self._paused_events))) < old(len(self._events)) and '
+                 '      self._paused_events[j] is old(seq(self._events))[comp_pos("events_to_pause", j - old(len(self._paused_events)))] '
+                 '      for j in range(old(len(self._paused_events)), len(self._paused_events))))',
+             'others_untouched': 'all(implies(e.asset_id != asset_id, same_event_fields(e)) for e in refs("Event"))',
+             'already_paused_untouched': 'all(same_event_fields(p) for p in old(seq(self._paused_events)))',
+             'only_stamp_changes': 'all(e.time == old(e.time) and e.cancelled == old(e.cancelled) and '
+                                   'e.executed == old(e.executed) for e in refs("Event"))',
+             'clock_untouched': 'self._now == old(self._now)',
+         },
+         modifies=['self._events[]', 'self._paused_events[]', '*.paused_at'])
+loop('Environment.pause_matching_events', 1, 'for event in events_to_pause',
+     {'list_fixed': 'alive(events_to_pause) and '
+                    'events_to_pause is not self._events and events_to_pause is not self._paused_events',
+      'sub': 'sublist_by(seq(self._events), old(seq(self._events)), g_m, g_inv)',
+      'kept': 'all(implies(old(self._events[a]).asset_id != asset_id or comp_inv("events_to_pause", a) >= k, '
+              '            0 <= g_inv[a] and g_inv[a] < len(self._events) and g_m[g_inv[a]] == a and '
+              '            self._events[g_inv[a]] is old(self._events[a])) for a in range(old(len(self._events))))',
+      'pending_still_queued':
+          'all(implies(self._events[i].asset_id == asset_id, comp_inv("events_to_pause", g_m[i]) >= k) '
+          '    for i in range(len(self._events)))',
+      'paused_grows':
+          'len(self._paused_events) == old(len(self._paused_events)) + k and '
+          'all(self._paused_events[j] is old(self._paused_events[j]) for j in range(old(len(self._paused_events)))) and '
+          'all(self._paused_events[x] is events_to_pause[x - old(len(self._paused_events))] '
+          '    for x in range(old(len(self._paused_events)), len(self._paused_events)))',
+      'stamped': 'all(events_to_pause[j].paused_at == self._now for j in range(k))',
+      'stamps_only_listed':
+          'all(e.paused_at == old(e.paused_at) or any(e is events_to_pause[j] for j in range(k)) for e in refs("Event"))',
+      'others_untouched': 'all(implies(e.asset_id != asset_id, same_event_fields(e)) for e in refs("Event"))',
+      'only_stamp_changes': 'all(e.time == old(e.time) and e.cancelled == old(e.cancelled) and '
+                            'e.executed == old(e.executed) for e in refs("Event"))',
+      'k_bound': 'k <= len(events_to_pause)'},
+     modifies=['self._events[]', 'self._paused_events[]', '*.paused_at'], index='k')
